@@ -2250,3 +2250,27 @@ M('C16','start-waits-for-previous-run-outside-the-lock','runtime/workerpool/work
 		w.ShutdownComplete.Wait()
 		w.mutex.Lock()
 """,'start/test-and-set-one-section')
+# ---- round-9 rules at sibling sites
+M('C04','flushkv-withrealm-keeps-view-for-empty-realm','kvstore/flushkv/flushkv.go',"""func (s *flushKVStore) WithRealm(realm kvstore.Realm) (kvstore.KVStore, error) {
+	store, err := s.store.WithRealm(realm)""","""func (s *flushKVStore) WithRealm(realm kvstore.Realm) (kvstore.KVStore, error) {
+	if len(realm) == 0 {
+		return s, nil
+	}
+	store, err := s.store.WithRealm(realm)""",'realm/with-realm-replaces')
+M('C05','mapdb-has-builds-key-in-the-realm','kvstore/mapdb/mapdb.go',"""func (s *mapDB) Has(key kvstore.Key) (bool, error) {""","""func (s *mapDB) Has(key kvstore.Key) (bool, error) {
+	_ = append(s.realm, key...)""",'alias/no-append-to-shared-field')
+M('C06','typedstore-iteratekeys-branch-returns-outer-nil-error','kvstore/typedstore.go',"""		valueDecoded, _, valueErr := t.bytesToValue(value)
+		if valueErr != nil {
+			innerErr = valueErr
+""","""		valueDecoded, _, valueErr := t.bytesToValue(value)
+		if valueErr != nil {
+			innerErr = keyErr
+""",'err/failure-branch-reports-its-own-error')
+M('C20','stopworkers-returns-from-the-walk','app/daemon/daemon.go',"""			if !worker.running.Load() {
+				worker.ctxCancel()
+
+				continue""","""			if !worker.running.Load() {
+				worker.ctxCancel()
+
+				return""",'walk/visits-every-entry')
+M('C17','starvingmutex-runlock-signals-readers','runtime/syncutils/starvingmutex.go',"""		f.readerCond.Broadcast()""","""		f.readerCond.Signal()""",'cond/all-admissible-waiters-woken')
